@@ -524,7 +524,7 @@ func TestC04(t *testing.T) {
 func TestC05(t *testing.T) {
 	r := newRun(t, "C05", "exploration")
 	defer r.Finish()
-	r.Rule = "real Bitcoin taker state machines (both roles) against a scripted maker with scheduler-controlled heights: the maker pre-broadcasts the opening tx 0..3 blocks before the taker's start (swap-out), 0..510 blocks pass before the announcement, the confirmation notification is delayed, blocks are mined between retries, restarts, invoice final CLTV in {0,9,144,500..506}; oracle at every RebalancePayment crossing with exact integers: now + permitted(f) < h_conf + 1008, where permitted(f) is read from the request the real builder produces for that invoice (CLN hop delay f+1; LND CltvLimit-1 = f+BlockPadding). distinct = (role, backend, now-start class, cltv, h_conf-start class, verdict)"
+	r.Rule = "real Bitcoin taker state machines (both roles) against a scripted maker with scheduler-controlled heights: the maker pre-broadcasts the opening tx 0..3 blocks before the taker's start (swap-out), 0..510 blocks pass before the announcement, the confirmation notification is delayed, blocks arrive while the node pauses between payment attempts, restarts (before the announcement, before the confirmation, inside the payment), invoice final CLTV in {0,9,144,500..506}; oracle at every RebalancePayment crossing with exact integers: now + permitted(f) < h_conf + 1008 with now = the later of the chain's tip and the last tip reported to the node, where permitted(f) is read from the request the real builder produces for that invoice (CLN hop delay f+1; LND CltvLimit-1 = f+BlockPadding). distinct = (role, backend, now-start class, cltv, h_conf-start class, verdict)"
 	r.Assumptions = []string{"now = height reported by the backend at the attempt; h_conf = height of the block that confirmed the opening tx in ground truth", "a payment can still be settled until its HTLC expiry = now + total CLTV delta the request permits"}
 	var cases []tlCase
 	rng := mrand.New(mrand.NewSource(r.Seed + 5))
